@@ -329,7 +329,7 @@ func runCheck(root string, args []string) int {
 		res := runKeyLayer(root, vd)
 		bounded = append(bounded, map[string]interface{}{
 			"name": "bounded:A-KEYS key layer (keylayer/zz_keylayer_test.go on the real x/alliance/types/keys.go)",
-			"bound": "12 denoms x 12 addresses (1..32 bytes) x 10 times x 9 heights; 6 facts: injective constructors / disjoint families, parsers = projections, prefix scans, suffix match, chronological end-exclusive ranges, family prefixes",
+			"bound": "12 denoms x 12 addresses (1..32 bytes) x 10 times x 9 heights; 7 facts: injective constructors / disjoint families, parsers = projections, prefix scans, suffix match, chronological end-exclusive ranges, pagination-key time survives prefix stripping, family prefixes",
 			"status": res.status, "seconds": res.secs, "failed_facts": res.failed,
 		})
 		if res.status == "failed" {
